@@ -66,7 +66,7 @@ def md5(
             continue
 
         try:
-            _, hi = hash_file(path, fs, name, state=state)
+            meta, hi = hash_file(path, fs, name, state=state)
         except FileNotFoundError:
             continue
 
@@ -76,7 +76,9 @@ def md5(
         ret.add(
             DataIndexEntry(
                 key=entry.key,
-                meta=entry.meta,
+                # NOTE: the metadata of the file as it was hashed, which is
+                # not necessarily what was recorded when the index was built
+                meta=meta,
                 hash_info=hi,
             )
         )
